@@ -89,6 +89,26 @@ theorem cond_typed_agree (x : Opnd) (hx : x.rv = .none) (hxt : x.ty.isUntyped = 
   | nil => simp [hty, Ty.isUntyped] at hxt
   | _ => simp_all <;> (cases hb : (k' == Kind.bool) <;> simp_all)
 
+/-- after the repair of F11: whatever the operand (constant or not, typed or untyped), unless it is `nil`,
+    the condition test answers as the specification; the constant shortcut is no longer reached on an error.
+    `hcb`: a go/constant-valued operand is not of boolean type (boolean constants are plain Go bools:
+    `RVal.gobool`, `RVal.ubool`; no expression of the fragment builds the excluded combination) -/
+theorem cond_agree (x : Opnd) (hn : x.ty ≠ .nil)
+    (hcb : ∀ c, x.rv = .const c → kindIsG (· == .bool) x.ty = false) : condY TE x = condG x := by
+  have hg : TE.condBoolGuarded = true := rfl
+  unfold condY condG kindOf
+  rw [hg]
+  cases hty : x.ty with
+  | nil => exact absurd hty hn
+  | iface i m =>
+    by_cases hm : m.isEmpty <;> cases hrv : x.rv <;>
+      simp [Ty.kind?, Ty.rtype?, hm, RTy.kind, kindIsG, underKind, Res.bind, bind]
+  | _ =>
+    cases hrv : x.rv <;>
+      (try have hcb' := hcb _ hrv) <;>
+      simp_all [Ty.kind?, Ty.rtype?, RTy.kind, kindIsG, underKind, Res.bind, bind] <;>
+      (try split) <;> simp_all
+
 theorem recv_typed_agree (T : TcFacts) (x : Opnd) (hxt : x.ty.isUntyped = false) : recvY T x = recvG x := by
   unfold recvY recvG kindOf
   cases hty : x.ty with
